@@ -18,11 +18,16 @@ package sync
 //@ spec fn logsCount(from int, to int) int
 //@ ghost var qFrom int
 //@ ghost var qTo int
+// okQueries counts the queries the node answered; lastQueryErrCancelled says whether the last failed query failed
+// because the caller's context was cancelled (the only failure after which giving up is allowed)
+//@ ghost var okQueries int
+//@ ghost var lastQueryErrCancelled bool
 
 //@ interface github.com/agglayer/aggkit/types.BaseEthereumClienter.FilterLogs (self, ctx, q)
 //@   requires q.FromBlock != nil && q.ToBlock != nil
-//@   modifies qFrom, qTo
-//@   ensures result1 != nil ==> qFrom == old(qFrom) && qTo == old(qTo)
+//@   modifies qFrom, qTo, okQueries, lastQueryErrCancelled
+//@   ensures result1 != nil ==> qFrom == old(qFrom) && qTo == old(qTo) && okQueries == old(okQueries) && lastQueryErrCancelled == isErr(result1, context.Canceled)
+//@   ensures result1 == nil ==> okQueries == old(okQueries) + 1
 //@   ensures result1 == nil ==> qFrom == bigval(q.FromBlock) && qTo == bigval(q.ToBlock) && len(result0) == logsCount(qFrom, qTo) && off(result0) == 0 && seq(result0) == logsIn(qFrom, qTo)
 //@   ensures result1 == nil ==> forall(k, 0, len(result0), len(result0[k].Topics) > 0 && bigval(q.FromBlock) <= result0[k].BlockNumber && result0[k].BlockNumber <= bigval(q.ToBlock))
 // assumed of the node (A8): logs come in block order, and within one answer a block number has one block hash
@@ -39,12 +44,14 @@ package sync
 //@ func (d *EVMDownloaderImplementation) GetLogs
 //@   props C05
 //@   requires d != nil && d.ethClient != nil && d.log != nil && d.rh != nil
-//@   modifies qFrom, qTo
+//@   modifies qFrom, qTo, okQueries, lastQueryErrCancelled
+//@   ensures[gives-up-only-when-the-context-was-cancelled] okQueries == old(okQueries) ==> lastQueryErrCancelled
 //@   ensures[one-query-over-exactly-the-requested-range] result != nil ==> qFrom == fromBlock && qTo == toBlock
 //@   ensures[only-logs-of-that-query] forall(k, 0, len(result), exists(j, 0, logsCount(fromBlock, toBlock), result[k] == logsIn(fromBlock, toBlock)[j] && !logsIn(fromBlock, toBlock)[j].Removed))
 //@   ensures[logs-of-the-range] forall(k, 0, len(result), len(result[k].Topics) > 0 && fromBlock <= result[k].BlockNumber && result[k].BlockNumber <= toBlock)
 //@   ensures[in-block-order] forall(j, 0, len(result) - 1, result[j].BlockNumber <= result[j+1].BlockNumber)
 //@   ensures[one-hash-per-block-number] forall(j, 0, len(result), forall(i, 0, len(result), result[j].BlockNumber == result[i].BlockNumber ==> result[j].BlockHash == result[i].BlockHash))
+//@   loop 0 invariant okQueries == old(okQueries)
 //@   loop 0 invariant d != nil && d.ethClient != nil && d.log != nil && d.rh != nil && query.FromBlock != nil && query.ToBlock != nil && bigval(query.FromBlock) == fromBlock && bigval(query.ToBlock) == toBlock
 //@   loop 1 invariant qFrom == fromBlock && qTo == toBlock && len(unfilteredLogs) == logsCount(fromBlock, toBlock) && off(unfilteredLogs) == 0 && seq(unfilteredLogs) == logsIn(fromBlock, toBlock) && off(logs) == 0
 //@   loop 1 invariant forall(k, 0, len(unfilteredLogs), len(unfilteredLogs[k].Topics) > 0 && fromBlock <= unfilteredLogs[k].BlockNumber && unfilteredLogs[k].BlockNumber <= toBlock) && forall(k, 0, len(logs), len(logs[k].Topics) > 0 && fromBlock <= logs[k].BlockNumber && logs[k].BlockNumber <= toBlock)
